@@ -159,6 +159,18 @@ def gen_c07(rng, tier):
             theta.append(gen_theta_profile(rng, n, blo, bhi))  # inside the span
         else:
             theta.append(gen_theta_profile(rng, n, max(0.0, blo - 1.0), bhi + 1.0))
+    for col in theta:
+        if rng.random() < 0.15:
+            # a thin (but not degenerate) cell at a bin edge: bounds e - a*2^-p and e + b*2^-p (dyadic, so the
+            # overlap fractions stay exact); a == 0 puts one bound on the edge, a > 0 makes the cell straddle it
+            k = rng.randrange(n)
+            e = rng.choice(bins)
+            d = 2.0 ** -rng.choice([10, 16, 20, 24, 27, 30, 34, 40])
+            a, b = rng.randint(0, 3), rng.randint(1, 3)
+            pair = [e - a * d, e + b * d]
+            if rng.random() < 0.5:
+                pair.reverse()
+            col[k], col[k + 1] = pair
     td_int = rng.random() < 0.1
     if td_int:
         # integer-typed target_data (e.g. an index-like or undecoded coordinate): whole-number
